@@ -663,13 +663,26 @@ def _um(x):
     return int(round(float(x) * 1e6))
 
 
+_SHARED = {}
+
+
+def _shared(np, n, value):
+    """one array object per length, updated in place from call to call - the way a caller stepping a trajectory passes its
+    altitude buffer; a function that keeps a reference to (rather than a copy of) an earlier argument is caught out"""
+    arr = _SHARED.get(n)
+    if arr is None:
+        arr = _SHARED[n] = np.zeros(n)
+    arr[:] = value
+    return arr
+
+
 @reg("aero.isa")
 def _a_isa(pm, v):
     import numpy as np
     a = pm.aero
     h = -500.0 + 500.0 * (v["k"] - 1)
     if v.get("arr"):
-        p, rho, T = a.atmos(np.array([h, h]))
+        p, rho, T = a.atmos(_shared(np, 2, h) if v.get("id", 0) % 2 else np.array([h, h]))
         p, rho, T = p[0], rho[0], T[0]
         p2, r2, T2 = a.pressure(np.array([h]))[0], a.density(np.array([h]))[0], a.temperature(np.array([h]))[0]
     else:
@@ -703,8 +716,8 @@ def _a_inv(pm, v):
     x = v["x"] / 1e6
     h = float(v["h"])
     if v.get("arr"):
-        y = f(np.array([x, x]), h)[0]
-        back = g(np.array([y]), np.array([h]))[0]
+        y = f(np.array([x, x]), _shared(np, 2, h) if v.get("id", 0) % 2 else h)[0]
+        back = g(np.array([y]), _shared(np, 1, h))[0]
     else:
         y = f(x, h)
         back = g(y, h)
